@@ -246,13 +246,13 @@ def bool_shapes(maxleaves):
 
 
 ATOM_LITS = [
-    ('5', '5'), ('5.5', '5.5'), ('-3', '-3'), ('5m', 'Quantity(5.0, "m")'), ('"abc"', '"abc"'), ('"ab d"', '"ab d"'), ('`http://x`', 'Uri("http://x")'),
+    ('5', '5'), ('1', '1'), ('0', '0'), ('"a  b"', '"a  b"'), ('5.5', '5.5'), ('-3', '-3'), ('5m', 'Quantity(5.0, "m")'), ('"abc"', '"abc"'), ('"ab d"', '"ab d"'), ('`http://x`', 'Uri("http://x")'),
     ('@x', 'Ref("x")'), ('@x "dis"', 'Ref("x", "dis")'), ('INF', 'float("inf")'), ('true', 'True'), ('false', 'False'), ('2020-02-29', 'datetime.date(2020, 2, 29)'), ('12:30:00', 'datetime.time(12, 30, 0)'),
 ]
 OPS = ['==', '!=', '<', '<=', '>', '>=']
 
 VALUES = '''
-VALS = [ABSENT, MARKER, None, 5, 5.0, 6, -3, 5.5, Quantity(5.0, "m"), Quantity(5.0, "s"), Quantity(7, "m"), "abc", "abd", "ab d", "5",
+VALS = [ABSENT, MARKER, None, 5, 5.0, 6, -3, 5.5, 1, 0, "a  b", "a b", Quantity(5.0, "m"), Quantity(5.0, "s"), Quantity(7, "m"), "abc", "abd", "ab d", "5",
         Uri("http://x"), Ref("x"), Ref("y"), Ref("x", "dis"), True, False, datetime.date(2020, 2, 29), datetime.date(2021, 1, 1),
         datetime.time(12, 30, 0), datetime.time(1, 0, 0), NA, [1], {"a": 1}, Coordinate(1, 2)]
 '''
@@ -305,6 +305,22 @@ def gen(tier):
 ''' % (li, OPS, ltxt, lpy)
         H.append(xhair.Harness('atom_%d' % li, src, timeout=120 if quick else 600,
                                what='six comparisons against the literal %s x row value of every kind (absent, marker, null, numbers incl. a symbolic int, quantities, strings, uri, refs, bools, date, time, NA, list, dict, coord)' % ltxt))
+    # two literals in one filter (literal tables, caches keyed by value, ...): every ordered pair of literal kinds
+    lits_src = 'LITS = [%s]\n' % ', '.join('(%r, %s)' % (t, p) for t, p in ATOM_LITS)
+    src = lits_src + '''def two_literals(i: int, j: int, conj: bool, vi: int, vj: int) -> bool:
+    """
+    pre: 0 <= i < len(LITS) and 0 <= j < len(LITS) and 0 <= vi <= 2 and 0 <= vj <= 2
+    post: _
+    """
+    (t1, l1), (t2, l2) = LITS[conc(i, 0, len(LITS) - 1)], LITS[conc(j, 0, len(LITS) - 1)]
+    text = 'tx == ' + t1 + (' and ' if conj else ' or ') + 'ty == ' + t2
+    ast = ('and' if conj else 'or', ('cmp', '==', ['tx'], l1), ('cmp', '==', ['ty'], l2))
+    cand = [l1, l2, 'zzz']
+    rows = [{'id': 'a', 'tx': cand[conc(vi, 0, 2)], 'ty': cand[conc(vj, 0, 2)]}, {'id': 'b', 'tx': l1, 'ty': l2}, {'id': 'c', 'tx': l2, 'ty': l1}]
+    return check_filter(text, ast, rows)
+'''
+    H.append(xhair.Harness('two_literals', src, timeout=200 if quick else 900,
+                           what='two literals of every ordered pair of kinds in one filter (incl. true/1, false/0, 5/5m): each comparison uses its own literal'))
     # paths a->b and a->b->c
     src = '''def paths(ridk: int, target: int, t2: int, vk: int, depth: int) -> bool:
     """
